@@ -1109,3 +1109,316 @@ Section Vertex.
         exists comp; (split; [exact Hcomp|]); right; exists h, sub; rewrite <- Ev; auto 10.
   Qed.
 End Vertex.
+
+(* ====================================================================================== *)
+(* Part 5: C04 — in the declarative semantics (Sem.v)                                        *)
+(* ====================================================================================== *)
+Lemma eq_t_u64_zero_ge1 x : (1 <=? u64_or_default x)%Z = true -> eq_t x (U64 0) = false /\ eq_t (U64 0) x = false.
+Proof.
+  unfold u64_or_default, as_u64. destruct x; cbn; try discriminate.
+  - destruct (0 <=? z)%Z eqn:E; [|discriminate]. intros H. apply Z.leb_le in H.
+    unfold eq_t. cbn. unfold compare_i64_to_u64. cbn.
+    destruct (Z.compare_spec z 0) as [C|C|C]; try (split; reflexivity). exfalso; clear - C H; lia.
+  - intros H. apply Z.leb_le in H. split; [apply Z.eqb_neq; lia|destruct z; [lia|reflexivity|reflexivity]].
+Qed.
+
+Lemma requires_one_excludes_zero k :
+  f_cand_ok k = true -> count_cand_requires_one k = true -> f_mem k (U64 0) = false.
+Proof.
+  intros Hok H. destruct k as [|x|l|r|]; cbn in H; try discriminate.
+  - unfold f_mem, Cand.mem. now apply eq_t_u64_zero_ge1.
+  - unfold f_mem, Cand.mem, vec_contains. clear Hok. induction l as [|x l IH]; cbn in *; [reflexivity|].
+    apply andb_prop in H. destruct H as [H1 H2]. rewrite (proj1 (eq_t_u64_zero_ge1 x H1)). cbn. now apply IH.
+  - unfold f_mem, Cand.mem, Cand.contains. cbn [fv_is_null].
+    unfold f_cand_ok, f_wf_cand, wf_cand, wf_range, cand_vals_wf in Hok.
+    destruct r as [s e n]. cbn in *. destruct s as [inc|inc|]; [| |discriminate].
+    + assert (t_le cmp_t inc (U64 0) = false) as K; [|now rewrite K].
+      unfold u64_or_default, as_u64 in H. unfold t_le, cmp_t. destruct inc; cbn in *; try discriminate.
+      * destruct (0 <=? z)%Z eqn:E; [|discriminate]. apply Z.leb_le in H. unfold compare_i64_to_u64. cbn.
+        destruct (Z.compare_spec z 0) as [C|C|C]; [exfalso; clear - C H; lia|exfalso; clear - C H; lia|reflexivity].
+      * apply Z.leb_le in H.
+        destruct (Z.compare_spec z 0) as [C|C|C]; [exfalso; clear - C H; lia|exfalso; clear - C H; lia|reflexivity].
+    + assert (t_lt cmp_t inc (U64 0) = false) as K; [|now rewrite K].
+      unfold as_u64 in H. unfold t_lt, cmp_t. destruct inc; cbn in *; try discriminate.
+      * destruct (0 <=? z)%Z eqn:E; [|discriminate]. apply Z.leb_le in E. unfold compare_i64_to_u64. cbn.
+        destruct (Z.compare_spec z 0) as [C|C|C]; try reflexivity. exfalso; clear - C E; lia.
+      * apply andb_prop in Hok. destruct Hok as [_ Hok]. apply andb_prop in Hok. destruct Hok as [Hw _].
+        apply andb_prop in Hw. destruct Hw as [Hw _]. apply Z.leb_le in Hw.
+        destruct (Z.compare_spec z 0) as [C|C|C]; try reflexivity. exfalso; clear - C Hw; lia.
+Qed.
+
+Lemma flat_map_dead {A B} (k : A -> bool) (F : A -> list B) l :
+  (forall x, k x = false -> F x = []) -> flat_map F (filter k l) = flat_map F l.
+Proof.
+  intros H. induction l as [|x l IH]; cbn; [reflexivity|].
+  destruct (k x) eqn:E; cbn; [now rewrite IH|]. now rewrite (H x E), IH.
+Qed.
+
+Lemma filter_all_true {A} (k : A -> bool) l : (forall x, k x = true) -> filter k l = l.
+Proof. intros H. induction l as [|x l IH]; cbn; [reflexivity|]. now rewrite H, IH. Qed.
+
+Section SemPrune.
+  Variable re : string -> string -> option bool.
+  Variable g : graph.
+  Variable args : list (string * fv).
+
+  (* ---- mandatory edges: a vertex without the edge contributes no row ---- *)
+  Theorem mandatory_edge_no_row vs ss imported e a v fromv :
+    e_optional e = false -> e_rec e = None ->
+    find_vertex vs (e_from e) = Some fromv -> lookup_N (e_from e) (a_v a) = Some (Some v) ->
+    g_nbrs g (v_type fromv) (e_name e) (e_params e) v = [] ->
+    step_edge re g args vs ss imported e a = [].
+  Proof.
+    intros Ho Hr Hf Hl Hn. unfold step_edge. rewrite Hf, Hl, Hr, Hn, Ho.
+    destruct (find_vertex vs (e_to e)); reflexivity.
+  Qed.
+
+  Theorem mandatory_fold_no_row vs ss imported h sub_sem a v fromv :
+    args_wf args -> fold_requires_nonempty args h = Ok true ->
+    find_vertex vs (fo_from h) = Some fromv -> lookup_N (fo_from h) (a_v a) = Some (Some v) ->
+    (forall imp, flat_map (fun n => sub_sem imp (Some n)) (g_nbrs g (v_type fromv) (fo_name h) (fo_params h) v) = []) ->
+    step_fold re g args vs ss imported h sub_sem a = [].
+  Proof.
+    intros Hargs Hreq Hf Hl Hn. unfold step_fold. rewrite Hf, Hl, Hn. cbn [List.length Z.of_nat].
+    match goal with |- (if ?b then _ else _) = _ => destruct b eqn:B end; [exfalso|reflexivity].
+    unfold fold_requires_nonempty in Hreq. invb Hreq as c Hc. injection Hreq as Hreq.
+    destruct c as [k|]; [|discriminate].
+    destruct (static_candidate_sound re args Hargs _ false k (U64 0) eq_refl (fun _ => eq_refl) Hc) as [Okk Hm].
+    rewrite (requires_one_excludes_zero k Okk Hreq) in Hm. enough (false = true) by discriminate. apply Hm.
+    intros f Hf'. unfold post_sfilters in Hf'. apply in_map_iff in Hf'. destruct Hf' as (pf & <- & Hpf).
+    rewrite forallb_forall in B. specialize (B pf Hpf).
+    eapply (filter_passes_static re args); [|exact B]. intros x t. reflexivity.
+  Qed.
+
+  (* ---- pruning neighbours ---- *)
+  (* the graph seen through an adapter that drops the neighbours rejected by `k` *)
+  Definition gP (k : vertex -> bool) : graph :=
+    mkGraph (g_starts g) (g_prop g) (fun ty e ps v => filter k (g_nbrs g ty e ps v)) (g_coerce g).
+
+  Lemma rec_from_keep_all k fuel : (forall n, k n = true) ->
+    forall first oty rf ety co edge ps v,
+      rec_from (gP k) fuel first oty rf ety co edge ps v = rec_from g fuel first oty rf ety co edge ps v.
+  Proof.
+    intros Hk. induction fuel as [|fuel IH]; intros; cbn; [reflexivity|].
+    f_equal. rewrite (filter_all_true k _ Hk).
+    destruct (first || match co with Some to => g_coerce g ety to v | None => true end); [|reflexivity].
+    apply flat_map_ext. intros x. apply IH.
+  Qed.
+
+  Lemma step_edge_keep_all k vs ss imported e a : (forall n, k n = true) ->
+    step_edge re (gP k) args vs ss imported e a = step_edge re g args vs ss imported e a.
+  Proof.
+    intros Hk. unfold step_edge.
+    destruct (find_vertex vs (e_from e)) as [fromv|]; [|reflexivity].
+    destruct (find_vertex vs (e_to e)) as [tov|]; [|reflexivity].
+    destruct (lookup_N (e_from e) (a_v a)) as [[v|]|]; try reflexivity.
+    destruct (e_rec e) as [r|].
+    - now rewrite (rec_from_keep_all k _ Hk).
+    - cbn [g_nbrs gP]. now rewrite (filter_all_true k _ Hk).
+  Qed.
+
+  Lemma map_some_match {A} (l : list A) : match l with [] => [] | x :: l' => map Some (x :: l') end = map Some l.
+  Proof. destruct l; reflexivity. Qed.
+
+  Lemma flat_map_map {A B C} (f : A -> B) (F : B -> list C) l : flat_map F (map f l) = flat_map (fun x => F (f x)) l.
+  Proof. induction l as [|x l IH]; cbn; [reflexivity|]. now rewrite IH. Qed.
+
+  Lemma flat_map_single {A} (l : list A) : flat_map (fun x => [x]) l = l.
+  Proof. induction l as [|x l IH]; cbn; [reflexivity|]. now rewrite IH. Qed.
+
+  (* dropping neighbours that would fail the destination's entry test is invisible on a mandatory
+     (non-optional) edge that is not recursive or recurses to depth 1 *)
+  Lemma step_edge_prune k vs ss imported e a tov :
+    find_vertex vs (e_to e) = Some tov ->
+    e_optional e = false -> (e_rec e = None \/ exists r, e_rec e = Some r /\ r_depth r = 1) ->
+    (forall n, k n = false -> enter re g args vs ss imported a tov (Some n) = false) ->
+    step_edge re (gP k) args vs ss imported e a = step_edge re g args vs ss imported e a.
+  Proof.
+    intros Ht Ho Hr Hk. unfold step_edge. rewrite Ht.
+    destruct (find_vertex vs (e_from e)) as [fromv|]; [|reflexivity].
+    destruct (lookup_N (e_from e) (a_v a)) as [[v|]|]; try reflexivity.
+    set (F := fun c : option vertex => if enter re g args vs ss imported a tov c then [set_av a (e_to e) c] else []).
+    change (fun c : option vertex => if enter re (gP k) args vs ss imported a tov c then [set_av a (e_to e) c] else []) with F.
+    assert (D : forall l, flat_map F (map Some (filter k l)) = flat_map F (map Some l)).
+    { intros l. rewrite !flat_map_map. apply flat_map_dead. intros n Hn. unfold F. now rewrite (Hk n Hn). }
+    destruct Hr as [Hr|(r & Hr & Hd)]; rewrite Hr.
+    - rewrite Ho. cbn [g_nbrs gP]. cbv iota. rewrite !map_some_match. apply D.
+    - rewrite Hd. change (N.to_nat 1) with 1%nat. cbn [rec_from orb g_nbrs gP].
+      rewrite !flat_map_single. cbn [map flat_map]. f_equal. apply D.
+  Qed.
+
+  Lemma step_fold_ext vs ss imported h (f f' : imports -> option vertex -> list asg) G a :
+    (forall i r, f i r = f' i r) -> step_fold re G args vs ss imported h f a = step_fold re G args vs ss imported h f' a.
+  Proof.
+    intros E. unfold step_fold.
+    destruct (find_vertex vs (fo_from h)); [|reflexivity].
+    destruct (lookup_N (fo_from h) (a_v a)) as [[v|]|]; try reflexivity.
+    assert (E' : forall j l, flat_map (fun n => f j (Some n)) l = flat_map (fun n => f' j (Some n)) l)
+      by (intros j l; apply flat_map_ext; intros n; apply E).
+    now rewrite E'.
+  Qed.
+
+  (* the imports a fold's component runs with (as computed by step_fold) *)
+  Definition sub_imports (vs : list ir_vertex) (ss : list step) (imported : imports) (h : fold_hdr) (a : asg) : imports :=
+    fold_left (fun m t => insert_ref t (import_value g vs ss imported a t) m) (fo_imported h) imported.
+
+  (* dropping fold neighbours that yield no fold element is invisible *)
+  Lemma step_fold_prune k vs ss imported h sub_sem a :
+    (forall n, k n = false -> sub_sem (sub_imports vs ss imported h a) (Some n) = []) ->
+    step_fold re (gP k) args vs ss imported h sub_sem a = step_fold re g args vs ss imported h sub_sem a.
+  Proof.
+    intros Hk. unfold step_fold.
+    destruct (find_vertex vs (fo_from h)) as [fromv|]; [|reflexivity].
+    destruct (lookup_N (fo_from h) (a_v a)) as [[v|]|]; try reflexivity.
+    cbn [g_nbrs gP]. fold (sub_imports vs ss imported h a).
+    now rewrite (flat_map_dead k (fun n => sub_sem (sub_imports vs ss imported h a) (Some n)) _ Hk).
+  Qed.
+
+  (* ---- the pruned semantics ---- *)
+  Record pruner := mkPr {
+    pr_start : vertex -> bool;
+    pr_edge : list ir_vertex -> list step -> imports -> ir_edge -> asg -> vertex -> bool;
+    pr_fold : list ir_vertex -> list step -> imports -> fold_hdr -> asg -> vertex -> bool
+  }.
+
+  Section Go.
+    Variable vs : list ir_vertex.
+    Variable ss : list step.
+    Variable imported : imports.
+    Variable edge_step : ir_edge -> asg -> list asg.
+    Variable fold_step : fold_hdr -> ir_component -> asg -> list asg.
+    Fixpoint go_steps (todo : list step) (rows : list asg) {struct todo} : list asg :=
+      match todo with
+      | [] => rows
+      | SEdge e :: r => go_steps r (flat_map (edge_step e) rows)
+      | SFold h sub :: r => go_steps r (flat_map (fold_step h sub) rows)
+      end.
+  End Go.
+
+  Lemma go_steps_ext es es' fs fs' todo : forall rows,
+    (forall e a, In (SEdge e) todo -> es e a = es' e a) ->
+    (forall h sub a, In (SFold h sub) todo -> fs h sub a = fs' h sub a) ->
+    go_steps es fs todo rows = go_steps es' fs' todo rows.
+  Proof.
+    induction todo as [|[e|h sub] r IH]; intros rows He Hf; cbn; [reflexivity| |].
+    - rewrite (flat_map_ext _ _ (fun a => He e a (or_introl eq_refl))).
+      apply IH; intros; [apply He|apply Hf]; now right.
+    - rewrite (flat_map_ext _ _ (fun a => Hf h sub a (or_introl eq_refl))).
+      apply IH; intros; [apply He|apply Hf]; now right.
+  Qed.
+
+  Lemma sem_comp_eq rootvid vs ss outs imported root :
+    sem_comp re g args (mkComp rootvid vs ss outs) imported root =
+    match find_vertex vs rootvid with
+    | None => []
+    | Some rv =>
+        if enter re g args vs ss imported (Asg [] []) rv root
+        then go_steps (step_edge re g args vs ss imported)
+                      (fun h sub => step_fold re g args vs ss imported h (sem_comp re g args sub))
+                      ss [Asg [(rootvid, root)] []]
+        else []
+    end.
+  Proof. reflexivity. Qed.
+
+  Fixpoint sem_comp_P (P : pruner) (c : ir_component) (imported : imports) (root : option vertex) {struct c} : list asg :=
+    match c with
+    | mkComp rootvid vs ss outs =>
+        match find_vertex vs rootvid with
+        | None => []
+        | Some rv =>
+            if enter re g args vs ss imported (Asg [] []) rv root then
+              (fix go (todo : list step) (rows : list asg) {struct todo} : list asg :=
+                 match todo with
+                 | [] => rows
+                 | SEdge e :: r =>
+                     go r (flat_map (fun a => step_edge re (gP (pr_edge P vs ss imported e a)) args vs ss imported e a) rows)
+                 | SFold h sub :: r =>
+                     go r (flat_map (fun a => step_fold re (gP (pr_fold P vs ss imported h a)) args vs ss imported h
+                                                        (sem_comp_P P sub) a) rows)
+                 end) ss [Asg [(rootvid, root)] []]
+            else []
+        end
+    end.
+
+  Lemma sem_comp_P_eq P rootvid vs ss outs imported root :
+    sem_comp_P P (mkComp rootvid vs ss outs) imported root =
+    match find_vertex vs rootvid with
+    | None => []
+    | Some rv =>
+        if enter re g args vs ss imported (Asg [] []) rv root
+        then go_steps (fun e a => step_edge re (gP (pr_edge P vs ss imported e a)) args vs ss imported e a)
+                      (fun h sub a => step_fold re (gP (pr_fold P vs ss imported h a)) args vs ss imported h
+                                                (sem_comp_P P sub) a)
+                      ss [Asg [(rootvid, root)] []]
+        else []
+    end.
+  Proof. reflexivity. Qed.
+
+  (* sem with the adapter pruned by P: starting vertices, neighbours of edges, neighbours of folds *)
+  Definition sem_pruned (P : pruner) (q : ir_query) : list Sem.row :=
+    let c := q_comp q in
+    map (fun a => sort_row (project g c a))
+        (flat_map (fun s => sem_comp_P P c [] (Some s))
+                  (filter (pr_start P) (g_starts g (q_root_name q) (q_root_params q)))).
+
+  (* admissibility of a pruner at the sites of one component: a neighbour may be dropped only
+     - on an edge that is not @optional and is either not recursive or recurses to depth 1, when the
+       neighbour fails the destination vertex' entry test (coercion + filters) for the row at hand;
+     - on a fold edge, when the neighbour yields no fold element *)
+  Definition admissible_comp (P : pruner) (c : ir_component) : Prop :=
+    (forall imported e a n tov,
+        In (SEdge e) (c_steps c) -> find_vertex (c_vertices c) (e_to e) = Some tov ->
+        pr_edge P (c_vertices c) (c_steps c) imported e a n = false ->
+        e_optional e = false /\ (e_rec e = None \/ exists r, e_rec e = Some r /\ r_depth r = 1) /\
+        enter re g args (c_vertices c) (c_steps c) imported a tov (Some n) = false) /\
+    (forall imported h sub a n,
+        In (SFold h sub) (c_steps c) ->
+        pr_fold P (c_vertices c) (c_steps c) imported h a n = false ->
+        sem_comp re g args sub (sub_imports (c_vertices c) (c_steps c) imported h a) (Some n) = []).
+
+  Definition admissible (P : pruner) (q : ir_query) : Prop :=
+    (forall s, pr_start P s = false -> sem_comp re g args (q_comp q) [] (Some s) = []) /\
+    (forall c, subcomp c (q_comp q) -> admissible_comp P c).
+
+  Lemma sem_comp_P_invisible P : forall c,
+    (forall c', subcomp c' c -> admissible_comp P c') ->
+    forall imported root, sem_comp_P P c imported root = sem_comp re g args c imported root.
+  Proof.
+    induction c as [rootvid vs ss outs IH] using comp_ind'. intros Hadm imported root.
+    rewrite sem_comp_P_eq, sem_comp_eq.
+    destruct (find_vertex vs rootvid) as [rv|]; [|reflexivity].
+    destruct (enter re g args vs ss imported (Asg [] []) rv root); [|reflexivity].
+    destruct (Hadm _ (sub_here _)) as [AE AF]. cbn [c_steps c_vertices] in AE, AF.
+    apply go_steps_ext.
+    - intros e a He.
+      destruct (find_vertex vs (e_to e)) as [tov|] eqn:Ft.
+      2:{ unfold step_edge. rewrite Ft. destruct (find_vertex vs (e_from e)); reflexivity. }
+      destruct (e_optional e) eqn:Eo.
+      { apply step_edge_keep_all. intros n. destruct (pr_edge P vs ss imported e a n) eqn:K; [reflexivity|].
+        destruct (AE imported e a n tov He Ft K) as (C & _). congruence. }
+      destruct (e_rec e) as [r|] eqn:Er.
+      + destruct (N.eqb (r_depth r) 1) eqn:Ed.
+        * apply N.eqb_eq in Ed. apply (step_edge_prune _ vs ss imported e a tov Ft Eo).
+          -- right. eauto.
+          -- intros n K. now destruct (AE imported e a n tov He Ft K) as (_ & _ & C).
+        * apply step_edge_keep_all. intros n. destruct (pr_edge P vs ss imported e a n) eqn:K; [reflexivity|].
+          destruct (AE imported e a n tov He Ft K) as (_ & [C|(r' & C & D)] & _); [congruence|].
+          rewrite Er in C. injection C as <-. rewrite D in Ed. discriminate.
+      + apply (step_edge_prune _ vs ss imported e a tov Ft Eo); [now left|].
+        intros n K. now destruct (AE imported e a n tov He Ft K) as (_ & _ & C).
+    - intros h sub a Hf.
+      rewrite (step_fold_ext vs ss imported h (sem_comp_P P sub) (sem_comp re g args sub)).
+      + apply step_fold_prune. intros n K. exact (AF imported h sub a n Hf K).
+      + intros i r. rewrite Forall_forall in IH. apply (IH (SFold h sub) Hf).
+        intros c' Hc'. apply Hadm. econstructor; eauto.
+  Qed.
+
+  (* pruning_invisible (partial): an adapter that prunes, at every resolution point, only as the
+     admissibility conditions above allow returns the same rows, in the same order *)
+  Theorem pruning_invisible_partial P q : admissible P q -> sem_pruned P q = sem re g args q.
+  Proof.
+    intros [As Ac]. unfold sem_pruned, sem. f_equal.
+    rewrite (flat_map_ext _ _ (fun s => sem_comp_P_invisible P (q_comp q) Ac [] (Some s))).
+    apply flat_map_dead. exact As.
+  Qed.
+End SemPrune.
